@@ -81,59 +81,8 @@ func fsmTestDieAt(dir, op string, n int, f func()) (dead bool) {
 	return
 }
 
-// A crash between the Sync of CURRENT.<y> and the rename, then RecoverFile instead of OpenFile: the recovery's
-// CURRENT names a manifest with a smaller number, the stale CURRENT.<y> and MANIFEST-<y> survive, and the next OpenFile
-// goes back to the pre-recovery manifest.
-func TestStalePendingAfterRecover(t *testing.T) {
-	dir, _ := os.MkdirTemp("", "repro-")
-	defer os.RemoveAll(dir)
-	o := &opt.Options{WriteBuffer: 4 << 10}
-	db, err := leveldb.OpenFile(dir, o)
-	if err != nil {
-		t.Fatal(err)
-	}
-	for i := 0; i < 300; i++ {
-		db.Put([]byte(fmt.Sprintf("old-%04d", i)), make([]byte, 100), nil)
-	}
-	db.CompactRange(util.Range{}) // the journal is empty at the next Open: that Open allocates no table before its manifest
-	db.Close()
-	t.Log("after first session:   ", fsmTestListing(t, dir))
-	// second Open dies inside SetMeta, before the rename
-	if !fsmTestDieAt(dir, "rename", 0, func() { leveldb.OpenFile(dir, o) }) {
-		t.Fatal("did not reach the rename")
-	}
-	img := fsmTestCopyDir(t, dir)
-	defer os.RemoveAll(img)
-	t.Log("process-death image:   ", fsmTestListing(t, img))
-	db, err = leveldb.RecoverFile(img, o)
-	if err != nil {
-		t.Fatal(err)
-	}
-	t.Log("after RecoverFile:     ", fsmTestListing(t, img))
-	for i := 0; i < 300; i++ {
-		if err := db.Put([]byte(fmt.Sprintf("new-%04d", i)), make([]byte, 100), &opt.WriteOptions{Sync: true}); err != nil {
-			t.Fatal(err)
-		}
-	}
-	db.CompactRange(util.Range{})
-	db.Close()
-	t.Log("after writes + Close:  ", fsmTestListing(t, img))
-	db, err = leveldb.OpenFile(img, o)
-	if err != nil {
-		t.Fatalf("reopen: %v   dir: %s", err, fsmTestListing(t, img))
-	}
-	defer db.Close()
-	t.Log("after reopen:          ", fsmTestListing(t, img))
-	missing := 0
-	for i := 0; i < 300; i++ {
-		if _, err := db.Get([]byte(fmt.Sprintf("new-%04d", i)), nil); err != nil {
-			missing++
-		}
-	}
-	if missing > 0 {
-		t.Errorf("%d of 300 keys written (with Sync) after RecoverFile are gone after Close + OpenFile", missing)
-	}
-}
+// (The stale-pending-file-after-RecoverFile scenario, defect D47, lives in c19fs.go: there the directory is COPIED at the
+// hooked call instead of unwinding a panic through leveldb.OpenFile, whose deferred clean-ups would run.)
 
 // CURRENT is damaged, CURRENT.bak is good (the case the backup exists for).  GetMeta answers from the backup and then
 // "restores CURRENT to proper state" with setMeta, whose first step copies the damaged CURRENT over CURRENT.bak.  If
